@@ -160,6 +160,7 @@ func permutations(xs []string, f func([]string)) {
 }
 
 func runC11(r *core.Run) {
+	r.Level = "exploration"
 	r.Rule = "all Go maps with <= 3 entries over a 12-string menu (empty, 1-char, '=', ';', NUL, 0xff, 255 bytes, multi-byte UTF-8) through GoMapToMapping (repeated 4x/16x for iteration order) and through ValuesToMapping in EVERY insertion order (n<=3; n=4,5 for selected key sets); size-limit family with total payload 65,520..65,550 and strings of 254/255/256 bytes; byte-walk of ReadMapping. Oracle: bytes == independent reference encoding of the key-sorted map, size field, clean re-parse, same Go map, reject beyond limits. non-trivial = distinct encodings produced within limits and checked, plus distinct limit cases"
 	r.Assume("GoMapToMapping's dependence on Go map iteration order cannot be steered; every insertion order of the same pairs is enumerated through ValuesToMapping instead, repeats are a secondary guard")
 	n := len(c11Menu)
